@@ -623,6 +623,8 @@ theorem typeOnly_exact (K : Kinds) (p : Pat) (hp : typeOnly p = true) (ctx : TEn
       simp only [matchNode, List.any_eq_true, List.contains_eq_mem, decide_eq_true_eq]
       rw [if_pos ⟨k, hk1, this⟩]; rfl
   | node _ _ => simp [typeOnly] at hp
+  | typesF _ _ _ => simp [typeOnly] at hp
+  | ctxInst => simp [typeOnly] at hp
   | m _ _ _ => simp [typeOnly] at hp
   | mnot _ _ _ => simp [typeOnly] at hp
   | mor _ => simp [typeOnly] at hp
@@ -649,7 +651,22 @@ theorem sound_node (K : Kinds) : ∀ (p : Pat) (ctx : TEnv) (t : Tree) (e : TEnv
     split at hm
     · next h => exact hk.2.2.1 k (by simpa using h)
     · cases hm
+  | .ctxInst, ctx, t, e, la, hk, hl, hm => by
+    simp only [leafAsts, Option.some.injEq] at hl; subst hl
+    simp only [matchNode] at hm
+    split at hm
+    · next h => exact hk.2.2.1 _ (by simpa using h)
+    · cases hm
   | .types ks, ctx, t, e, la, hk, hl, hm => by
+    simp only [leafAsts, Option.some.injEq] at hl; subst hl
+    simp only [matchNode] at hm
+    split at hm
+    · next h =>
+      simp only [List.any_eq_true] at h
+      obtain ⟨k, hk1, hk2⟩ := h
+      exact leafTypes_mem K t.kind hk.1 ks [] (Or.inr ⟨k, hk1, hk.2.2.1 k (by simpa using hk2)⟩)
+    · cases hm
+  | .typesF ks k0 ps, ctx, t, e, la, hk, hl, hm => by
     simp only [leafAsts, Option.some.injEq] at hl; subst hl
     simp only [matchNode] at hm
     split at hm
